@@ -101,13 +101,16 @@ class SymEval(object):
       if isinstance(f, ast.Name):
         return ('call', f.id) + args + kws
       if isinstance(f, ast.Attribute):
+        summ = self._summary(n, args, fn)
+        if summ is not None:
+          return summ
         recv = self.ev(f.value, env, fn)
         m = f.attr
         if m == 'format' and recv[0] == 'const' and isinstance(recv[1], str):
           tpl = re.sub(r'\{[^}:]*(?::([^}]*))?\}', lambda mo: '%' + (mo.group(1) or 's'), recv[1])
           return ('fmt', tpl) + args
         d = dotted(f)
-        if d and recv[0] in ('param', 'attr') and not _rooted_in_env(f.value, env):
+        if d and recv[0] in ('param', 'attr') and not _rooted_in_env(f.value, env) and not _rooted_in_params(f.value, fn):
           return ('call', d) + args + kws
         return ('meth', m, recv) + args + kws
       return ('opaque', unparse(n))
@@ -151,6 +154,45 @@ class SymEval(object):
     if isinstance(n, ast.Starred):
       return ('star', self.ev(n.value, env, fn))
     return ('opaque', unparse(n))
+
+  def _summary(self, call, args, fn, _depth=[0]):
+    """return term of self.<method>(...) / cls.<method>(...) calls that resolve inside the class hierarchy."""
+    f = call.func
+    if fn is None or fn.cls is None or not (isinstance(f.value, ast.Name) and f.value.id in ('self', 'cls')):
+      return None
+    if _depth[0] >= self.inline_depth:
+      return None
+    cs, how = self.cx.callees(call, fn)
+    if how != 'resolved' or not cs:
+      return None
+    outs = []
+    _depth[0] += 1
+    try:
+      for callee, _ in cs[:3]:
+        if callee.cls is None or callee is fn:
+          return None
+        env2 = {}
+        params = callee.params[1:] if not callee.is_staticmethod else callee.params
+        for p, a in zip(params, args):
+          env2[p] = a
+        for kw in call.keywords:
+          if kw.arg in params:
+            env2[kw.arg] = self.ev(kw.value, {}, fn)
+        # defaults
+        a = callee.node.args
+        defaults = dict(zip([x.arg for x in a.args][-len(a.defaults):], a.defaults)) if a.defaults else {}
+        for p in params:
+          if p not in env2 and p in defaults:
+            env2[p] = self.ev(defaults[p], {}, callee)
+        rec = []
+        self.run(callee.body, env2, callee, lambda c: None, rec)
+        rets = [r[2][0] for r in rec if r[0] == '<return>']
+        if not rets:
+          return None
+        outs.extend(rets)
+    finally:
+      _depth[0] -= 1
+    return either(*outs)
 
   def bind(self, t, v, env):
     if isinstance(t, ast.Name):
@@ -260,6 +302,20 @@ def _rooted_in_env(node, env):
   while isinstance(node, ast.Attribute):
     node = node.value
   return isinstance(node, ast.Name) and node.id in env
+
+
+def _rooted_in_params(node, fn):
+  while isinstance(node, ast.Attribute):
+    node = node.value
+  if not isinstance(node, ast.Name) or fn is None:
+    return False
+  f = fn
+  while f is not None:
+    ps = f.params
+    if node.id in ps and not (node.id in ('self', 'cls') and ps and ps[0] == node.id):
+      return True
+    f = f.parent_fn
+  return False
 
 
 def fmt_specs(template):
